@@ -75,6 +75,133 @@ def corrupt_lines(run):
     return None
 
 
+def _first(run, op):
+    for e in run:
+        if e.get("op") == op:
+            return e
+    return None
+
+
+def corrupt_find_cell(run):
+    """haystack x needle family: one found position moved by one"""
+    if run[0].get("fam") != "findfam":
+        return None
+    e = _first(run, "find_matrix")
+    if e is None:
+        return None
+    for row in e["m"]:
+        for j, v in enumerate(row):
+            if v > 0:
+                row[j] = v - 1
+                return [run[0], e]
+    return None
+
+
+def corrupt_boundary_cmp(run):
+    """chunk-boundary family: the order of two strings whose first difference is at byte >= 16 flipped"""
+    if run[0].get("subject") != "faststr:cmp" or not str(run[0].get("variant", "")).startswith("bound"):
+        return None
+    e = _first(run, "cmp_matrix")
+    if e is None:
+        return None
+    a = e["a"]
+    for i in range(len(a)):
+        for j in range(len(a)):
+            if len(a[i]) > 17 and len(a[j]) > 17 and a[i][:16] == a[j][:16] and a[i] != a[j] and e["m"][i][j] != 0:
+                e["m"][i][j] = -e["m"][i][j]
+                return [run[0], e]
+    return None
+
+
+def corrupt_fs_conv(run):
+    for e in run:
+        if e.get("op") == "fs_conv" and e["s"] and e["valid"]:
+            e["str"] = e["str"][:-1]
+            return [run[0], e]
+    return None
+
+
+def corrupt_fs_split(run):
+    for e in run:
+        if e.get("op") != "fs_split":
+            continue
+        for c in e["cases"]:
+            if len(c["r"]) >= 2:
+                c["r"] = c["r"][:-1] + [c["r"][-1] + [120]]
+                return [run[0], e]
+    return None
+
+
+def corrupt_multi_search(run):
+    e = _first(run, "multi_search")
+    if e is None:
+        return None
+    for c in e["cases"]:
+        if len(c["pos"]) >= 2:
+            del c["pos"][1]
+            del c["ch"][1]
+            return [run[0], e]
+    return None
+
+
+def corrupt_li_utils(run):
+    e = _first(run, "li_utils")
+    if e is None or not e["collect"]["ok"] or len(e["S"]) < 2:
+        return None
+    for c in e["counts"]:
+        if c["ok"] and c["n"] >= 2:
+            c["n"] -= 1
+            return [run[0], e]
+    return None
+
+
+def corrupt_bsearch(run):
+    e = _first(run, "bsearch")
+    if e is None or not e.get("ok"):
+        return None
+    for c in e["cases"]:
+        if not c["found"] and len(e["v"]) >= 3:
+            c["i"] = c["i"] + 1 if c["i"] < len(e["v"]) else c["i"] - 1
+            return [run[0], e]
+    return None
+
+
+def corrupt_charclass(run):
+    e = _first(run, "charclass")
+    if e is None:
+        return None
+    e["w"][ord("_")] = False
+    return [run[0], e]
+
+
+def corrupt_line_utils(run):
+    for e in run:
+        if e.get("op") == "line_utils" and e["an"]["ok"] and e["an"]["lines"] >= 2:
+            e["an"]["lines"] -= 1
+            return [run[0], e]
+    return None
+
+
+def corrupt_utf8(run):
+    e = _first(run, "utf8")
+    if e is None:
+        return None
+    for c in e["cases"]:
+        if c["iter"] and len(c["fwd"]) >= 2 and c["fwd"][0] != c["fwd"][1]:
+            c["bwd"] = c["bwd"][1:] + c["bwd"][:1]
+            return [run[0], e]
+    return None
+
+
+def corrupt_sorted_ids(run):
+    """get_by_id after sorting: two insertion-order entries swapped"""
+    e = _first(run, "sorted_enum")
+    if e is None or "ids" not in e or len(e["ids"]) < 2 or e["ids"][0] == e["ids"][1]:
+        return None
+    e["ids"][0], e["ids"][1] = e["ids"][1], e["ids"][0]
+    return [run[0], e]
+
+
 CANON = re.compile(rb"^[1-9][0-9]*(\.[0-9]*[1-9])?$")
 
 
@@ -131,6 +258,7 @@ def mc_strings(ctx):
                "executable = definitional forms, Cmp total order by unsigned byte, find/slice/join/split laws")
     ctx.tlc_mc("MC_Strings", cfg="MC_Strings_order4.cfg", workers=4, note="Cmp total order / find on all strings up to length 4 (121 strings, all triples)")
     ctx.tlc_mc("MC_Strings", cfg="MC_Strings_text.cfg", workers=4, note="line / word / case definitions over {LF,CR,SP,'A','a','_'} up to length 4")
+    ctx.tlc_mc("MC_Strings", cfg="MC_Strings_utf8.cfg", workers=4, note="UTF-8 decoding over {a, C3, A9, E2, 82, F0, 9F, 80} up to length 4")
     ctx.tlc_mc("MC_LexIter", workers=4, required_actions=("DoNext", "DoPrev", "DoSeek"),
                note="cursor contract: every sorted sequence (duplicates, empty strings) up to 4 elements: visit-exactly-once, bounds")
 
@@ -146,7 +274,18 @@ def selftests(ctx, files):
     for mutate, what in ((corrupt_cmp_cell, "one entry of a FastStr comparison matrix flipped"),
                          (corrupt_skip_element, "one element skipped in a forward cursor scan (a next() cut out)"),
                          (corrupt_hash, "hash of one differently aligned copy changed"),
-                         (corrupt_lines, "one delivered line dropped")):
+                         (corrupt_lines, "one delivered line dropped"),
+                         (corrupt_boundary_cmp, "order of two strings that first differ beyond byte 16 flipped"),
+                         (corrupt_find_cell, "one found position of a haystack x needle matrix moved by one"),
+                         (corrupt_fs_conv, "as_str() of a well-formed string shortened"),
+                         (corrupt_fs_split, "one field of FastStr::split changed"),
+                         (corrupt_multi_search, "one position dropped from a multi_search result"),
+                         (corrupt_li_utils, "count_with_prefix answer lowered by one"),
+                         (corrupt_bsearch, "insertion point of a binary search moved"),
+                         (corrupt_sorted_ids, "get_by_id order changed after a sort"),
+                         (corrupt_charclass, "is_word_char('_') answered false"),
+                         (corrupt_line_utils, "analyze_text line count lowered"),
+                         (corrupt_utf8, "backward code point sequence rotated")):
         ctx.selftest_corrupt(TRACE, pick(files, mutate, what), mutate, what)
     # numeric: the recorded sub-matrix of canonical numbers is accepted as it is and rejected with one entry flipped
     nf = first_file_with(files, "numcmp:realnum_strcmp")
